@@ -1,5 +1,12 @@
-(* C01 -- compiled execution follows the documented control flow (statements grow). *)
-From BL Require Import Base.Prelude Mach.Val Mach.Compile Mach.Runtime.
+(* C01 -- compiled execution follows the documented semantics.
+   What is proved (Proofs/ExprCompile.v): for expressions over literals, scalar variables, unary minus, NOT and all
+   binary operators -- any depth -- the code the compiler emits is the postfix form; the VM's own fetch loop runs that
+   code like a straight-line interpreter and leaves the program counter behind it; the result on top of the stack
+   (or the error) is the one the reference semantics Spec/Sem.v computes for the same variable store, and nothing else
+   in the machine state changes.  Plus the ON dispatch arithmetic.
+   What is NOT proved: the same for statements and control flow (GOTO/GOSUB/FOR/WHILE/IF, symbol resolution in the
+   linker, TRON).  There the deciding work is the differential run of generated programs against Spec/Sem.v. *)
+From BL Require Import Base.Prelude Mach.Val Lang.Ast Mach.Compile Mach.Runtime Spec.Sem Proofs.Slicing Proofs.ExprCompile.
 Local Open Scope N_scope.
 
 (* ON: selector 0 or beyond the list falls through past the jump table; 1..len selects an entry *)
@@ -17,3 +24,52 @@ Proof.
   cbn. destruct ((sel =? 0) || (len <? sel))%Z; reflexivity.
 Qed.
 Print Assumptions C01_on_dispatch.
+
+(* code generation: a pure expression compiles to its postfix form, with no symbols, no DATA and no errors *)
+Theorem C01_expression_code_is_postfix : forall e, pure e = true -> lenN (postfix e) <= MAX_POOL ->
+  snd (fst (cg_expr e)) = plain (postfix e) /\ snd (cg_expr e) = [].
+Proof. exact cg_expr_postfix. Qed.
+Print Assumptions C01_expression_code_is_postfix.
+
+(* the VM: postfix code pushes the value of the expression and changes nothing else; errors are the expression's errors *)
+Theorem C01_postfix_runs : forall O h e r, pure e = true -> r_slen r + lenN (postfix e) <= MAX_POOL ->
+  match eval_pure O (r_vars r) e with
+  | Ok v => run_ops O h (postfix e) r = (pushed r v, Ok tt)
+  | Err er => snd (run_ops O h (postfix e) r) = Err er
+  | Panic => snd (run_ops O h (postfix e) r) = Panic
+  | Hang => snd (run_ops O h (postfix e) r) = Hang
+  end.
+Proof. exact run_postfix. Qed.
+Print Assumptions C01_postfix_runs.
+
+(* ... through the model's own fetch-and-dispatch loop, with the code anywhere in program memory *)
+Theorem C01_fetch_loop_runs_code : forall O code h r, forallb expr_op code = true -> r_tron r = false -> code_at r (r_pc r) code ->
+  snd (exec_loop_x O (length code) h r) = no_event (snd (run_ops O h code r)) /\
+  (forall u, snd (run_ops O h code r) = Ok u ->
+     fst (exec_loop_x O (length code) h r) = set_pc (fst (run_ops O h code r)) (r_pc r + lenN code)).
+Proof. exact fetch_loop_runs_code. Qed.
+Print Assumptions C01_fetch_loop_runs_code.
+
+Theorem C01_postfix_is_expression_code : forall e, pure e = true -> forallb expr_op (postfix e) = true.
+Proof. exact postfix_expr_ops. Qed.
+Print Assumptions C01_postfix_is_expression_code.
+
+(* the reference semantics computes the same value *)
+Theorem C01_sem_eval_pure : forall O fuel e s line, pure e = true -> (depth e < fuel)%nat -> s_locals s = [] ->
+  eval O fuel line e s = (s, of_res (eval_pure O (s_vars s) e)).
+Proof. exact sem_eval_pure. Qed.
+Print Assumptions C01_sem_eval_pure.
+
+(* together: compiled code on the VM against the reference semantics *)
+Theorem C01_compiled_expression_correct : forall O h e r s line,
+  pure e = true -> lenN (postfix e) <= MAX_POOL -> r_slen r + lenN (postfix e) <= MAX_POOL ->
+  s_locals s = [] -> s_vars s = r_vars r ->
+  let code := l_ops (snd (fst (cg_expr e))) in
+  snd (cg_expr e) = [] /\
+  match snd (eval O (S (depth e)) line e s) with
+  | EvOk v => run_ops O h code r = (pushed r v, Ok tt)
+  | EvErr c => exists er, snd (run_ops O h code r) = Err er /\ ecode er = c
+  | EvUndef => True
+  end.
+Proof. exact compiled_expression_correct. Qed.
+Print Assumptions C01_compiled_expression_correct.
